@@ -34,16 +34,16 @@ PROPS = {
             "explanation": "`rules_accepted_iff`, `authenticate_iff`, `no_rules_nothing` for all rule lists / triples over List Char; correspondence of SetRoutingRules+Authenticate on the real keeper over the full identifier alphabet weighted to regexp metacharacters; independent field-wise oracle."},
     "C04": {"level": "proof", "streams": [{"name": "nft", "test": "TestStreamNft", "cases": 9, "ops": 50, "thorough_scale": 12}],
             "assumptions": COMMON_ASSUME + ["irisnet nft / cosmos-sdk x/nft keepers modelled from source (ownership map, class table); exercised through the real keepers"],
-            "level_text": "PARTIAL proof: class-path algebra for all strings, the send-side well-formedness guard, per-step custody lemmas (lock/burn exactly the sender's token, release only from escrow, users cannot mint vouchers). The global exactly-one-holder invariant is not proved; it is checked on the real chains by a provenance-ledger oracle over scripted forged-class / round-trip scenarios and random histories.",
+            "level_text": "PARTIAL proof: class-path algebra for all strings, the send-side well-formedness guard, per-step custody lemmas (lock/burn exactly the sender's token, release only from escrow, users cannot mint vouchers). The global exactly-one-holder invariant is not proved; it is checked on the real chains by a provenance-ledger oracle over scripted forged-class / round-trip scenarios and random histories. The global statement is FALSE of the code for one family of histories (known finding F-C04-relayedit, a consequence of F-C13-relay: an acknowledgement with an edited relay chain refunds a token that was delivered): proved as `one_holder_fails_under_relay_edit` (kernel-evaluated witness) and replayed on the real chains in every run.",
             "explanation": "Lean: Props/C04 (+C06 path algebra). Correspondence: nft stream (real NFT module, real transfers on 2-4 chains, path-shaped class ids) diffed against the model; oracle: provenance ledger (holder count, escrow released to the right claimant)."},
     "C05": {"level": "proof", "streams": [{"name": "mt", "test": "TestStreamMt", "cases": 8, "ops": 60, "thorough_scale": 12}],
             "assumptions": COMMON_ASSUME + ["irisnet mt keeper modelled from source with its exact overflow guards and unchecked subtractions (wrap-around modelled)"],
-            "level_text": "PARTIAL proof: 64-bit arithmetic of every token-module operation (no wrap under locally checked bounds, exact deltas), error-ack leaves balances/supply unchanged. The cross-chain sum invariant is not proved; checked on the real chains by the provenance-ledger oracle (supply = sum of balances per chain; user-held + in-flight = minted - burnt) with amounts up to 2^64-1.",
+            "level_text": "PARTIAL proof: 64-bit arithmetic of every token-module operation (no wrap under locally checked bounds, exact deltas), error-ack leaves balances/supply unchanged. The cross-chain sum invariant is not proved; checked on the real chains by the provenance-ledger oracle (supply = sum of balances per chain; user-held + in-flight = minted - burnt) with amounts up to 2^64-1. The cross-chain clauses are FALSE of the code for two families of histories (known findings F-C05-relayedit-a/-b and F-C05-portedit, consequences of F-C13): proved as `conservation_fails_under_relay_edit` and `escrow_unbacked_under_port_edit` (kernel-evaluated witnesses), replayed on the real chains in every run; an escrow-backing oracle per token and hop level checks every other history.",
             "explanation": "Lean: Props/C05. Correspondence: mt stream diffed against the model incl. near-2^64 amounts; oracle: conservation ledger."},
     "C06": {"level": "proof", "streams": [{"name": "nft", "test": "TestStreamNft", "cases": 9, "ops": 50, "thorough_scale": 12},
                                           {"name": "mt", "test": "TestStreamMt", "cases": 6, "ops": 50, "thorough_scale": 12}],
             "assumptions": COMMON_ASSUME,
-            "level_text": "proof of the path algebra behind refunds and round trips for all strings and routes of any length (`back_away_base`, `back_away_path`, `parse_full`); refund exactness and round-trip restoration on real chains by oracle (scripted 1-3 hop round trips with/without relay, error acks at every failure point).",
+            "level_text": "proof of the path algebra behind refunds and round trips for all strings and routes of any length (`back_away_base`, `back_away_path`, `parse_full`); refund exactness and round-trip restoration on real chains by oracle (scripted 1-3 hop round trips with/without relay, error acks at every failure point). The clause 'no token of it exists on the receiving side' is FALSE of the code when the error acknowledgement comes from a chain the packet never named (known finding F-C06-relayedit; `refund_although_delivered`).",
             "explanation": "Lean: Props/C06. Correspondence: nft + mt streams; oracles: refund-exact, refund-fails, round-trip-restores."},
     "C11": {"level": "proof", "streams": [PACKET_STREAM, {"name": "nft", "test": "TestStreamNft", "cases": 9, "ops": 50, "thorough_scale": 12},
                                           {"name": "mt", "test": "TestStreamMt", "cases": 6, "ops": 50, "thorough_scale": 12}],
